@@ -334,6 +334,12 @@ func NewCommitVoteSetFromBytes(bs []byte) module.CommitVoteSet {
 	if err != nil {
 		return nil
 	}
+	for _, item := range vl.Items {
+		// a signature without V can be neither recovered nor re-encoded
+		if item.Signature.Signature != nil && !item.Signature.Signature.HasV() {
+			return nil
+		}
+	}
 	return vl
 }
 
